@@ -877,13 +877,19 @@ class Interp:
                 return ('hostattr', f'{base[1]}.{e.attr}')
             if isinstance(base, (ARegex, AList, ADict, str)) and not isinstance(getattr(e, 'ctx', None), ast.Store):
                 return ('bound', base, e.attr)
+            if isinstance(base, CMatch):
+                if e.attr in ('lastindex', 'lastgroup', 'pos', 'endpos', 'string'):
+                    return getattr(base.m, e.attr)
+                if e.attr == 're':
+                    return base.regex
+                return ('bound', base, e.attr)
             if isinstance(base, AObj):
                 if e.attr in base.attrs:
                     return base.attrs[e.attr]
                 if isinstance(getattr(e, 'ctx', None), ast.Load):
                     return ('bound', base, e.attr)
             if isinstance(base, tuple) and base and base[0] == 'partial' and e.attr in ('func', 'args', 'keywords'):
-                return base[1] if e.attr == 'func' else tuple(base[2]) if e.attr == 'args' else ADict()
+                return base[1] if e.attr == 'func' else tuple(base[2]) if e.attr == 'args' else ADict(dict(base[3]) if len(base) > 3 else {})
             if isinstance(base, Sym):
                 if base.kind == 'exc' and len(base.args) > 1:
                     a = base.args[1]
@@ -1167,6 +1173,8 @@ class Interp:
                 return self.call_builtin(fn[1], args, e)
             finally:
                 self._kwargs = {}
+        if kwargs and isinstance(fn, tuple) and fn and fn[0] == 'partial':
+            return self.apply(fn, args, e, kwargs)
         if kwargs and not isinstance(fn, ModuleFunc):
             self.bad(e, 'keyword arguments outside the subset')
         if isinstance(fn, tuple) and fn[0] == 'builtin':
@@ -1456,8 +1464,9 @@ class Interp:
             return ADict({})
         if name == 'functools.partial' and args:
             kw = getattr(self, '_kwargs', {}) or {}
+            self._kwargs = {}
             if kw:
-                self.bad(e, 'functools.partial with keyword arguments')
+                return ('partial', args[0], tuple(args[1:]), tuple(kw.items()))
             return ('partial', args[0], tuple(args[1:]))
         if name == 'functools.reduce' and len(args) in (2, 3):
             items = self.iterate(args[1], e)
@@ -1524,12 +1533,27 @@ class Interp:
             return -args[0]
         return NotImplemented
 
-    def apply(self, fn, args, at):
-        """call an abstract function value: ModuleFunc, ('partial', fn, pre-args), ('closure', Lambda, env)"""
+    def apply(self, fn, args, at, kwargs=None):
+        """call an abstract function value: ModuleFunc, ('partial', fn, pre-args[, keyword items]), ('closure', Lambda, env)"""
         if isinstance(fn, ModuleFunc):
-            return self.call_function(fn.node, list(args), at)
+            return self.call_function(fn.node, list(args), at, kwargs or None)
         if isinstance(fn, tuple) and fn and fn[0] == 'partial':
-            return self.apply(fn[1], list(fn[2]) + list(args), at)
+            kw = dict(fn[3]) if len(fn) > 3 else {}
+            kw.update(kwargs or {})
+            return self.apply(fn[1], list(fn[2]) + list(args), at, kw or None)
+        if kwargs:
+            if isinstance(fn, tuple) and fn and fn[0] == 'class':
+                obj = self.instantiate(fn[1], list(args), kwargs, at)
+                return obj if obj is not None else Sym('instance', fn[1], tuple(args), tuple(sorted(kwargs.items(), key=lambda kv: kv[0])))
+            if isinstance(fn, tuple) and fn and fn[0] == 'hostattr':
+                self._kwargs = dict(kwargs)
+                try:
+                    r = self.call_value_hook(fn, list(args), at)
+                finally:
+                    self._kwargs = {}
+                if r is not NotImplemented:
+                    return r
+            self.bad(at, 'keyword arguments for a function value outside the subset')
         if isinstance(fn, tuple) and fn and fn[0] == 'bound':
             self._kwargs = {}
             return self.call_method(fn[1], fn[2], list(args), at)
